@@ -115,6 +115,10 @@ def cases(tier, only=None):
             for fam in hashk.MH_FAMS:
                 # quick: one 1024-byte block; thorough: two blocks in one call (closes the block loop: state carried in registers / reloaded)
                 L.append(("mhkernel", (fpat % fam,), (alg, "_" + fnpat % fam, 1 if q else 2)))
+    if only is not None and "murkernel" in only:
+        import hashk
+        for fam in hashk.MH_FAMS:
+            L.append(("murkernel", ("mh_sha1_murmur3_x64_128/mh_sha1_murmur3_x64_128_block_%s.asm" % fam,), ("sha1", "_mh_sha1_murmur3_x64_128_block_%s" % fam, 1 if q else 2, True)))
     if only is None or "gcmdata" in only or "gcmstream" in only:
         for (k, f, p_) in gcm_cases(tier):
             if only is None or k in only:
@@ -140,7 +144,7 @@ def _work(arg):
         elif kind == "hashkernel":
             import hashk
             o = hashk.kernel_case(img, *params)
-        elif kind == "mhkernel":
+        elif kind in ("mhkernel", "murkernel"):
             import hashk
             o = hashk.mh_case(img, *params)
         elif kind == "gcmdata":
